@@ -21,6 +21,8 @@ list, slice and index array (no size bound):
                           every selected position is assigned in exactly one block, in selection order;
 * `value_slices_partition` hence the value pieces `[n_preceding, n_preceding + size)` are consecutive
                           and cover `0 … len(selection)` exactly once;
+* `setitem1d_den`         the capstone for one axis: over all blocks the (position, value element) pairs assigned are
+                          exactly `zip(selected positions, value)`;
 * `int_index_block`, `int_index_sorted`, `int_block_index`  1-d integer-array index: position `k` of the
                           index array goes to the block holding `index[k]` (exactly one), in increasing
                           `k` (so duplicates are written in NumPy's order: last wins), and the block's index
@@ -86,6 +88,22 @@ theorem value_slices_partition (start stop step loc0 loc1 : Int) (hs : 0 < step)
   · have e : firstGe start step loc0 = start := by unfold firstGe; simp; omega
     rw [e, rangeUp_nil (by omega : min stop loc0 ≤ start)]
     simp
+
+/-- **1-d slice assignment, end to end on the plan.** `V` is the value as the blocks read it: the value itself
+    for an increasing slice, the mirrored value for a decreasing one (`reversed_value_piece`: the piece
+    `[n_preceding, n_preceding+size)` of a reversed axis is read at positions `size-1-p`, i.e. it is that piece of
+    `V.reverse`). Over all blocks, the pairs (array position, value element) produced by the per-block assignments
+    `x_block[block slice] = V[n_preceding : n_preceding + size]` are exactly `zip(selected positions, V)`:
+    every selected position receives its own value element exactly once, whatever the chunking. -/
+theorem setitem1d_den {α : Type} (V : List α) (lengths : List Nat) (start stop step : Int) (hs : 0 < step)
+    (h0 : 0 ≤ start) (hss : start ≤ stop) (hstop : stop ≤ ((lengths.sum : Nat) : Int)) :
+    ((locations lengths).flatMap fun (l0, l1) => blockAssign V start stop step l0 l1)
+      = (rangeUp start stop step).zip V :=
+  setitem1d_pairs V lengths start stop step hs h0 hss hstop
+
+/-- non-vacuity: `x[1:9:3] = [a, b, c]` on chunks (4, 3, 5) -/
+example : ((locations [4, 3, 5]).flatMap fun (l0, l1) => blockAssign [10, 20, 30] 1 9 3 l0 l1)
+    = [(1, 10), (4, 20), (7, 30)] := by decide
 
 /-! ## 1-d integer array index -/
 
